@@ -86,6 +86,12 @@ func c01Canon(op string, line string, isOS bool) string {
 	case strings.HasPrefix(f[0], "h=") && len(f) > 1:
 		return f[0] + " " + f[1]
 	}
+	if op == "h.write" || op == "h.writestring" || op == "h.writeat" || op == "h.trunc" {
+		// refused for want of write access: EBADF / EINVAL from the OS, "file handle is read only" from afero
+		for _, e := range []string{"rohandle", "badf", "inval"} {
+			line = strings.Replace(line, "err:"+e, "err:denied", 1)
+		}
+	}
 	return line
 }
 
@@ -610,6 +616,11 @@ func (s *wf) apply1(t []string, lastChmod string) bool {
 			if t[0] != "h.trunc" && t[2] == "-" && h.closed {
 				return false // an empty write on a closed descriptor is not even attempted by the OS
 			}
+			if !h.dir && !h.closed && !h.writable {
+				// a handle opened without write access: the call must be refused by both sides and change
+				// nothing (an empty write is answered by the OS without a look at the access mode)
+				return t[0] == "h.trunc" || t[2] != "-"
+			}
 			return !h.dir && (h.closed || h.writable)
 		}
 	}
@@ -626,7 +637,8 @@ func c01WF(c corr.Case) bool {
 	return true
 }
 
-var c01Segs = []string{"a", "b", "c"}
+// "ab" shares a string prefix with "a": a subtree operation on /a must leave /ab alone
+var c01Segs = []string{"a", "b", "c", "ab"}
 
 func randPath(r *corr.Rand, maxDepth int) string {
 	d := 1 + r.Intn(maxDepth)
@@ -857,6 +869,9 @@ func c01Corpus() []corr.Case {
 		// rename file over file, O_EXCL, O_TRUNC
 		mk("create "+h("/p"), "h.write 0 6161", "create "+h("/q"), "h.write 1 6262", "rename "+h("/p")+" "+h("/q"), "openfile "+h("/q")+" 192 420",
 			"openfile "+h("/q")+" 514 420", "h.write 2 63", "snapshot"),
+		// a subtree is delimited by path elements, not by a string prefix
+		mk("mkdirall "+h("/d/log")+" 493", "mkdir "+h("/d/logs")+" 493", "create "+h("/d/log.old"), "create "+h("/d/log/x"), "create "+h("/d/logs/keep"),
+			"removeall "+h("/d/log"), "stat "+h("/d/log.old"), "stat "+h("/d/logs/keep"), "snapshot", "rename "+h("/d/logs")+" "+h("/d/l"), "stat "+h("/d/log.old"), "snapshot"),
 	}
 }
 
